@@ -3,5 +3,6 @@ CONSTANTS MaxN = 1
   Big = TRUE
   Variant = "faithful"
 INVARIANT FastEqualsGeneric
+INVARIANT UnitsExact
 INVARIANT ConvertIsElem
 CHECK_DEADLOCK FALSE
